@@ -18,12 +18,12 @@ for pid in sys.argv[1:]:
         meta = json.load(open(os.path.join(md, "meta.json")))
         demo = meta["demo_cmd"].replace("<repo>", wt)
         clean(wt)
-        rc_a, out_a = sh(demo)                      # (a) demo passes on clean tree
+        rc_a, out_a = sh(demo, wt)                      # (a) demo passes on clean tree
         clean(wt)
         rc_ap, out_ap = sh(f"git apply {md}/patch.diff", wt)
         rc_b, out_b = sh("go build ./...", wt)
         rc_s, out_s = sh(f"VERIF_REPO={wt} python3 /verif/tools/baseline.py")
-        rc_d, out_d = sh(demo)                      # demo fails with the patch
+        rc_d, out_d = sh(demo, wt)                      # demo fails with the patch
         clean(wt)
         passed = lambda rc, out: rc == 0 and "FAIL" not in out and "panic:" not in out
         rc_a = 0 if passed(rc_a, out_a) else 1
